@@ -6,6 +6,7 @@ mod c06;
 mod c11;
 mod c12;
 mod c13;
+mod c14;
 #[cfg(umya_verif_sched)]
 mod c16;
 mod crypto;
